@@ -346,7 +346,7 @@ pub fn main(rest: &[String]) -> i32 {
         cfg.stakes = stakes.clone();
         cfg.real = (0..n).map(|i| honest.contains(&i)).collect();
         cfg.tag = tag.clone();
-        w.write(&json!({"t":"reset","n":n,"stakes":stakes,"honest":honest}));
+        w.write(&json!({"t":"reset","n":n,"stakes":stakes,"honest":honest,"leaders":crate::rig::leader_table(&cfg, 128)}));
         let rig = Rig::with_base(cfg, id_base);
         let byz: Vec<usize> = (0..n).filter(|i| !honest.contains(i)).collect();
         let mut world = World {
